@@ -71,6 +71,7 @@ type world struct {
 	cas, ac *memBackend
 	cs      int
 	maxMsg  int
+	fl      flags
 	bs      bytestream.ByteStreamServer
 	casSrv  remoteexecution.ContentAddressableStorageServer
 	acSrv   remoteexecution.ActionCacheServer
